@@ -88,8 +88,8 @@ def _raise(v, exc):
 
 
 def is_exc(out, exc):
-    """The outcome is exactly this exception object (propagated unchanged)."""
-    return out.exc is not None and out.exc.real is exc
+    """The outcome is exactly this exception object (propagated unchanged); `exc` is a real exception or a symbolic ExcVal."""
+    return out.exc is not None and exc is not None and (out.exc is exc or out.exc.real is exc)
 
 
 def event_is(ev, **fields):
@@ -112,6 +112,7 @@ class Session:
         self.mon = mon
         self.gone = gone
         self.sent = []  # events the server accepted (send returned), framework-originated only
+        self.tried = []  # every event handed to send, accepted or not
         self.attempts = 0  # calls of send
         self.refused = False  # the server raised something that is not a lost connection
         self.lost_error = None  # the exception object the server raised last
@@ -119,8 +120,9 @@ class Session:
 
 
 # what a server may raise from send(); LOST_KINDS are the ones falcon classifies as a lost connection
-FATES = ('returns', 'oserror', 'oserror-with-cause-1001', 'closed-ok-1000', 'subprotocol-rejected', 'other-server-error')
+FATES = ('returns', 'oserror', 'oserror-with-cause-1001', 'closed-ok-1000', 'subprotocol-rejected', 'other-server-error', 'close-code-rejected')
 LOST_FATES = (1, 2, 3, 4)
+ALL_FATES = (0, 1, 2, 3, 4, 5, 6)
 
 
 def server_error(fate):
@@ -134,6 +136,9 @@ def server_error(fate):
         return Exception('received 1000 (OK); then sent 1000 (OK): code = 1000 (OK), no reason')
     if fate == 4:
         return Exception('protocol accepted must be from the list client sent in its handshake request')
+    if fate == 6:
+        # Daphne / autobahn refusing the close code of a websocket.close event; the connection itself is still there
+        return Exception('Invalid close code 4999 (must be 1000 or from [3000, 4999])')
     return RuntimeError('server-specific failure')
 
 
@@ -145,7 +150,7 @@ FATE_CODE = {1: 1000, 2: 1001, 3: 1000}
 class Send:
     """The ASGI server's `send` callable with the session monitor inside."""
 
-    def __init__(self, v, sess, rx=None, fates=(0, 1, 2, 3, 4, 5)):
+    def __init__(self, v, sess, rx=None, fates=ALL_FATES):
         self.v = v
         self.sess = sess
         self.rx = rx
@@ -156,6 +161,7 @@ class Send:
     def __call__(self, event):
         v, s = self.v, self.sess
         s.attempts += 1
+        s.tried.append(event)
         t = event.get('type') if isinstance(event, dict) else None
         m = s.mon
         v.check('session-legal:no-send-attempt-after-the-server-reported-the-connection-lost', m != LOST)
@@ -987,7 +993,9 @@ class World:
         self.v = v
         self.maxq = maxq
         self.sess = Session(CONNECTING, False)
-        self.send = Send(v, self.sess, fates=(0, 1, 5))  # returns / lost (OSError) / other server error
+        # returns / lost (OSError) / other server error / close code refused ("invalid close code": read by _ws_cleanup_on_error).
+        # The other lost-connection shapes (2, 3, 4) are left out here, see NOT_DECIDED.
+        self.send = Send(v, self.sess, fates=(0, 1, 5, 6))
         self.ws = None
         self.req = None
         self.final = None
@@ -1067,7 +1075,8 @@ class Participant:
             s = v.int(self.name + '_status', 100, 599)
             self.status = s
             if v.concrete:
-                raise cls(s)
+                self.error = cls(s)
+                raise self.error
             ev = ExcVal(cls, (s,))
             ev.fields['status'] = s
             ev.fields['status_code'] = s  # HTTPError.status_code / HTTPStatus.status_code: the integer code of .status (C05)
@@ -1078,7 +1087,8 @@ class Participant:
             c = v.int(self.name + '_disconnect_code', 1000, 4999)
             self.code = c
             if v.concrete:
-                raise cls(c)
+                self.error = cls(c)
+                raise self.error
             ev = ExcVal(cls, (c,))
             ev.fields['code'] = c
             self.error = ev
@@ -1093,8 +1103,26 @@ class Participant:
 
 @stubclass
 class ErrorHandler(Participant):
+    """A custom error handler that declares the optional `ws` parameter."""
+
+    takes_ws = True
+
     def __call__(self, req, resp, ex, params, ws=None):
+        self.world.v.check('custom-handler-declaring-a-ws-parameter-gets-the-socket', ws is not None)
+        self.got = (req, resp, ex, params)
         return self.run((req, resp, ex, params), {'ws': ws})
+
+
+@stubclass
+class ErrorHandlerNoWs(Participant):
+    """A custom error handler with the plain (req, resp, ex, params) signature: it must not be handed a `ws` keyword."""
+
+    takes_ws = False
+
+    def __call__(self, req, resp, ex, params, **unexpected):
+        self.world.v.check('custom-handler-without-a-ws-parameter-gets-the-four-documented-arguments-only', not unexpected)
+        self.got = (req, resp, ex, params)
+        return self.run((req, resp, ex, params), {})
 
 
 def _setup_app(reg, ex):
@@ -1166,11 +1194,13 @@ class WsOptions:
 def build_app(v, w, route_kind, with_mw, custom):
     """The App object around _handle_websocket (real App in concrete mode)."""
     resource = _Opaque('resource')
-    w.responder = Participant(w, 'responder', True, (P_RETURNS, P_HTTP_ERROR, P_HTTP_STATUS, P_DISCONNECTED, P_EXCEPTION) + ((P_BOOM,) if custom else ()))
-    mw_fates = (P_RETURNS, P_HTTP_ERROR, P_EXCEPTION)
-    w.request_mw = Participant(w, 'process_request_ws', route_kind == UNROUTED, mw_fates) if with_mw else None
-    w.resource_mw = Participant(w, 'process_resource_ws', route_kind == NO_RESPONDER, mw_fates) if with_mw else None
-    w.handler = ErrorHandler(w, 'custom_handler', True, (P_RETURNS, P_HTTP_ERROR, P_HTTP_STATUS, P_EXCEPTION)) if custom else None
+    # a middleware method is application code like the responder: it may return or raise anything the responder may raise
+    fates = (P_RETURNS, P_HTTP_ERROR, P_HTTP_STATUS, P_DISCONNECTED, P_EXCEPTION) + ((P_BOOM,) if custom else ())
+    w.responder = Participant(w, 'responder', True, fates)
+    w.request_mw = Participant(w, 'process_request_ws', route_kind == UNROUTED, fates) if with_mw else None
+    w.resource_mw = Participant(w, 'process_resource_ws', route_kind == NO_RESPONDER, fates) if with_mw else None
+    handler_cls = ErrorHandler if getattr(w, 'handler_takes_ws', 1) else ErrorHandlerNoWs
+    w.handler = handler_cls(w, 'custom_handler', True, (P_RETURNS, P_HTTP_ERROR, P_HTTP_STATUS, P_DISCONNECTED, P_EXCEPTION)) if custom else None
     if route_kind == UNROUTED:
         route = None
     else:
@@ -1234,6 +1264,8 @@ def handle_websocket(v):
     with_mw = v.choose(2, 'middleware?')
     custom = v.choose(2, 'custom-error-handler?')
     w = World(v, maxq)
+    # falcon passes the socket to an error handler only when its signature declares a `ws` parameter: both kinds of handler
+    w.handler_takes_ws = v.choose(2, 'handler-takes-ws?') if custom else 1
     s = w.sess
     app = build_app(v, w, route_kind, with_mw, custom)
     recv = AppReceive(v, s, {'type': 'websocket.connect'})
@@ -1265,6 +1297,15 @@ def handle_websocket(v):
     if w.responder.calls:
         a, k = w.responder.calls[0]
         v.check('responder-gets-request-socket-and-route-params', len(a) == 2 and a[0] is w.req and a[1] is w.ws and set(k) == {'room'} and k['room'] is w.params['room'])
+    if w.handler is not None and w.handler.calls:
+        h_req, h_resp, h_ex, h_params = w.handler.got
+        if raiser is w.request_mw or route_kind == UNROUTED:
+            params_ok = isinstance(h_params, dict) and len(h_params) == 0  # nothing routed yet / no route
+        else:
+            params_ok = h_params is w.params
+        v.check('custom-handler-gets-the-request-no-response-the-raised-exception-and-the-route-params',
+                h_req is w.req and h_resp is None and (h_ex is raiser.error or getattr(h_ex, 'real', None) is raiser.error) and params_ok)
+        v.cover('custom-handler-ran')
 
     # --- which close the statement demands ----------------------------------------------------------
     # cause: what ended the conversation
@@ -1324,6 +1365,12 @@ def handle_websocket(v):
         # framework tries next is judged by the session monitor (session-legal:* clauses)
         v.check('refused-close-not-counted', Implies(len(w.send.seen) == 1, n_sent == 0))
         v.cover('final-close-refused')
+        if w.send.seen and w.send.seen[0] == 6 and cause == 'error':
+            # the server (Daphne) refused the CODE of the close event, the connection is still there: when that code was the
+            # configured error_close_code the close is repeated with the fallback code, so that the client is not left hanging
+            if valid_close_code(ecc):
+                v.check('close-code-refused-by-the-server-falls-back-to-3011', len(s.tried) >= 2 and is_close(s.tried[0], ecc) and is_close(s.tried[1], 3011))
+                v.cover('close-code-refused')
         return
     v.check('exactly-one-event-sent', And(s.attempts == 1, n_sent == 1))
     ev = s.sent[0] if s.sent else None
@@ -1345,12 +1392,16 @@ def handle_websocket(v):
 for _r, _rn in ((UNROUTED, 'unrouted'), (NO_RESPONDER, 'no-responder'), (ROUTED, 'routed')):
     for _mw in (0, 1):
         for _c in (0, 1):
-            if _c and _r != ROUTED:
-                continue  # the custom handler is reached from the responder only
+            if _c and _r != ROUTED and not _mw:
+                continue  # without a responder and without middleware no application code runs: the custom handler is unreachable
             for _q in (0, 1):
-                harness(PROP, APP + '._handle_websocket', name='handle_websocket[%s,mw=%d,custom=%d,queue=%d]' % (_rn, _mw, _c, (0, 4)[_q]),
-                        inline=APP_INLINE, setup=_setup_app,
-                        fix={'route': _r, 'middleware?': _mw, 'custom-error-handler?': _c, 'max_receive_queue': _q})(handle_websocket)
+                for _h in ((0, 1) if _c else (None,)):
+                    _fix = {'route': _r, 'middleware?': _mw, 'custom-error-handler?': _c, 'max_receive_queue': _q}
+                    _name = 'handle_websocket[%s,mw=%d,custom=%d,queue=%d]' % (_rn, _mw, _c, (0, 4)[_q])
+                    if _c:
+                        _fix['handler-takes-ws?'] = _h
+                        _name = _name[:-1] + ',handler-ws=%d]' % _h
+                    harness(PROP, APP + '._handle_websocket', name=_name, inline=APP_INLINE, setup=_setup_app, fix=_fix)(handle_websocket)
 
 
 @harness(PROP, APP + '._handle_websocket', name='handshake_abandoned', inline=APP_INLINE, setup=_setup_app)
